@@ -362,6 +362,21 @@ def run_cli_case(c, timeout_s=20.0):
     stdin = c.args[0].replace("|", "\n")
     if stdin == "_":
         stdin = ""
+    if c.op == "cli_libf":
+        # cli_libf <stdin> <files: name=content;;name=content (| newline, ~ tab)> <argv…>: the command runs in a
+        # private directory holding the files; the result also lists every file it wrote
+        rc, out, _err, produced = exec_goalign(c.args[2:], stdin.encode(), _files(c.args[1]), timeout_s=timeout_s)
+        if rc == "hang":
+            c.impl = "hang"
+            return
+
+        def enc(b):
+            return b.decode("utf-8", "replace").replace("\t", " ").replace("\n", "|")
+        if rc != 0:
+            c.impl = "rc=%d out= files=" % rc
+        else:
+            c.impl = "rc=0 out=%s files=%s" % (enc(out), ";;".join("%s=%s" % (k, enc(produced[k])) for k in sorted(produced)))
+        return
     try:
         p = subprocess.run([binp] + c.args[1:], input=stdin.encode(), stdout=subprocess.PIPE,
                            stderr=subprocess.PIPE, timeout=timeout_s)
@@ -743,7 +758,7 @@ def shrink_case(mod, binpath, case, still_bad, max_rounds=60, budget_s=45.0):
     if case.op == "detmulti":
         from driver import multigen
         shrinker = multigen.shrink
-    elif case.op in ("cli_lib", "detgz"):
+    elif case.op in ("cli_lib", "cli_libf", "detgz"):
         from driver import cligen
         shrinker = cligen.shrink
     elif hasattr(mod, "shrink"):
